@@ -1410,3 +1410,65 @@ def reach_table_by_length(body, bb, g, lengths=(0, 1, 2, 5)):
             vals.append(eval_atom_env(a, env))
         table[L] = None if any(v is None for v in vals) else all(vals)
     return table
+
+
+def unov_deep(t):
+    """checked arithmetic `(a +ovf b).0` -> a + b everywhere in the term"""
+    return map_term(t, lambda x: ("binop", x[1][1].replace("WithOverflow", ""), x[1][2], x[1][3])
+                    if x[0] == "field" and str(x[2]) == "0" and x[1][0] == "binop" and x[1][1].endswith("WithOverflow") else None)
+
+
+def as_index(t):
+    t = strip(t)
+    if t[0] == "index":
+        return strip(t[1]), t[2]
+    if is_call(t, "Index::index") and len(t[2]) == 2:
+        return strip(t[2][0]), t[2][1]
+    return None
+
+
+def renumbered_builder(ctx, rule, body, g, index_of=None, what=""):
+    """a symbol rebuilt under a renumbering src2img / img2src of its chambers (canonical form, subsymbol):
+        op'(i, d) = src2img[ ds.op(I(i), img2src[d]) ],   v'(i, d) = ds.v(I(i), I(i + 1), img2src[d])
+    with the two maps inverse to each other; I = identity, or indices[.] for a subsymbol.  Checks the two closures handed to build_set /
+    build_sym_using_vs.  -> (src2img term, img2src term) or None"""
+    b = body
+    ds = ("param", 1, b.debug.get(1, ""))
+    r = strip(norm(b.local_origin(0), g))
+    bad = None
+    maps = None
+    if not (is_call(r, "derived::build_sym_using_vs") and is_call(strip(r[2][0]), "derived::build_set")):
+        bad = "not build_sym_using_vs(build_set(..), ..)"
+    else:
+        bs = strip(r[2][0])
+        i_, d_ = ("local", -1, "i"), ("local", -2, "d")
+        opr = apply_closure(ctx.facts, strip(bs[2][2]), [i_, d_], g)
+        vr = apply_closure(ctx.facts, strip(r[2][1]), [i_, d_], g)
+        I = (lambda t: t) if index_of is None else index_of
+        o = strip(opr) if opr is not None else None
+        if not (o is not None and is_call(o, "Option::<T>::map") and is_call(strip(o[2][0]), "DSet::op")):
+            bad = "op'(i, d) is not ds.op(.., img2src[d]).map(|e| src2img[e]): %s" % (show(o, 1)[:70] if o else None)
+        else:
+            oc = strip(o[2][0])
+            a = [strip(y) for y in oc[2]]
+            ix = as_index(a[2])
+            ix = ("index", ix[0], ix[1]) if ix else None
+            inner = apply_closure(ctx.facts, strip(o[2][1]), [("local", -3, "e")], g)
+            inner = strip(inner) if inner is not None else None
+            if not (a[0] == ds and unov_deep(a[1]) == I(i_) and ix is not None and strip(ix[2]) == d_):
+                bad = "op'(i, d) does not look up ds.op(%s, img2src[d]): %s" % ("indices[i]" if index_of else "i", show(oc, 1)[:70])
+            elif not (inner is not None and as_index(inner) and strip(as_index(inner)[1]) == ("local", -3, "e")):
+                bad = "the image of op is not src2img[e]: %s" % (show(inner, 1)[:50] if inner else None)
+            else:
+                img2src, src2img = strip(ix[1]), as_index(inner)[0]
+                v = unov_deep(strip(vr)) if vr is not None else None
+                if img2src == src2img:
+                    bad = "op'(i, d) maps into and out of the SAME table (%s): the renumbering is not inverted" % show(img2src, 1)[:30]
+                elif not (v is not None and is_call(v, "DSym::v") and strip(v[2][0]) == ds and unov_deep(strip(v[2][1])) == I(i_) and
+                          unov_deep(strip(v[2][2])) == unov_deep(I(("binop", "Add", i_, ("int", 1)))) and as_index(v[2][3]) and as_index(v[2][3])[0] == img2src and strip(as_index(v[2][3])[1]) == d_):
+                    bad = "v'(i, d) is not ds.v(%s, img2src[d]): %s" % ("indices[i], indices[i + 1]" if index_of else "i, i + 1", show(v, 1)[:80] if v else None)
+                else:
+                    maps = (src2img, img2src)
+    ctx.ob(rule, b.name, "renumbered op / v" + what, "ok" if not bad else "violation",
+           "op'(i, d) = src2img[ds.op(I(i), img2src[d])], v'(i, d) = ds.v(I(i), I(i + 1), img2src[d])" if not bad else bad)
+    return maps
